@@ -47,12 +47,23 @@ def baseline(dst):
         if ev.get("Action") == "fail" and ev.get("Test"):
             failed.add(ev["Test"].split("/")[0])
     failed = sorted(failed - ALLOWED_FAIL)
-    # the machine is busy: a timing-sensitive test may fail spuriously; keep only failures that persist in isolation
+    # the machine is busy: timing-sensitive tests fail spuriously. A failure counts only if, run alone three times, the
+    # test fails at least twice WITH the patch and at most once on an unchanged copy under the same load.
     persistent = []
-    for name in failed:
-        rc, _ = run(["go", "test", "-vet=off", "-count=3", "-run", "^%s$" % name, "-timeout", "10m", "."], dst)
-        if rc != 0:
-            persistent.append(name)
+    clean = None
+    try:
+        for name in failed:
+            fp = sum(1 for _ in range(3) if run(["go", "test", "-vet=off", "-count=1", "-run", "^%s$" % name, "-timeout", "10m", "."], dst)[0] != 0)
+            if fp < 2:
+                continue
+            if clean is None:
+                clean = scratch("clean")
+            fc = sum(1 for _ in range(3) if run(["go", "test", "-vet=off", "-count=1", "-run", "^%s$" % name, "-timeout", "10m", "."], clean)[0] != 0)
+            if fc <= 1:
+                persistent.append("%s (alone: %d/3 with the patch, %d/3 without)" % (name, fp, fc))
+    finally:
+        if clean:
+            shutil.rmtree(clean, ignore_errors=True)
     return persistent
 
 
